@@ -200,7 +200,15 @@ struct Interp {
     if (!fail.empty()) return false;
     for (auto &s : suts) {
       std::string m = verify(*s);
-      if (!m.empty()) { set_fail(owner_for(*s, owner_of(p)), "[" + s->name + "] after " + p.render + ": " + m); return false; }
+      if (!m.empty()) {
+        std::string own = owner_of(p);
+        // is_deleted flags, logical counts and needs_garbage_collection are C02's observables ("always describe
+        // exactly the surviving set", also across clear() and additions): a fresh entity that is born flagged is
+        // not a construction (C11) defect
+        if (own == "C11" && (m.find("is_deleted(") != std::string::npos || m.find("logical counts") != std::string::npos || m.find("needs_garbage_collection()") != std::string::npos)) own = "C02";
+        set_fail(owner_for(*s, own), "[" + s->name + "] after " + p.render + ": " + m);
+        return false;
+      }
     }
     if (on_step && !on_step(p)) return false;
     return fail.empty();
